@@ -513,6 +513,11 @@ namespace GeographicLib {
           }
         }
         node.Check(numpoints, treesize, bucket);
+        // Children are created before their parent (see init), so a child
+        // index at or beyond the node's own index would make a cycle.
+        if (node.index >= 0 &&
+            !( node.data.child[0] < i && node.data.child[1] < i ))
+          throw GeographicLib::GeographicErr("Bad child pointers");
         tree.push_back(node);
       }
       _tree.swap(tree);
@@ -715,8 +720,12 @@ namespace GeographicLib {
       if (!( 0 <= int(tree.size()) && int(tree.size()) <= numpoints ))
         throw
           GeographicLib::GeographicErr("Bad number of points or tree size");
-      for (int i = 0; i < int(tree.size()); ++i)
+      for (int i = 0; i < int(tree.size()); ++i) {
         tree[i].Check(numpoints, int(tree.size()), bucket);
+        if (tree[i].index >= 0 &&
+            !( tree[i].data.child[0] < i && tree[i].data.child[1] < i ))
+          throw GeographicLib::GeographicErr("Bad child pointers");
+      }
       _tree.swap(tree);
       _numpoints = numpoints;
       _bucket = bucket;
